@@ -15,7 +15,10 @@ cd $wt
 pkgname=$(grep -m1 '^package ' $src/demo_test.go | awk '{print $2}')
 pkgname=${pkgname%_test}
 touched=$(grep '^+++ b/' $src/patch.diff | sed 's|+++ b/||' | xargs -n1 dirname | sort -u)
-if [ "$pkgname" = main ]; then demodir=$(echo "$touched" | grep '^apps/' | head -1); else
+if [ "$pkgname" = main ]; then demodir=$(echo "$touched" | grep '^apps/' | head -1)
+  # a demonstration in an apps/* program for a change made elsewhere: the author names the program in the demo or the notes
+  [ -z "$demodir" ] && demodir=$(grep -oh 'apps/[a-z_]*' $src/demo_test.go $src/notes.md 2>/dev/null | sort | uniq -c | sort -rn | awk '{print $2}' | head -1)
+else
   demodir=$(grep -rl --include=*.go "^package $pkgname\$" . | grep -v _test.go | xargs -n1 dirname | sort -u | head -1); demodir=${demodir#./}; fi
 [ -z "$demodir" ] && { echo "cannot place demo"; exit 2; }
 testname=$(grep -o 'func Test[A-Za-z0-9_]*' $src/demo_test.go | head -1 | sed 's/func //')
